@@ -23,6 +23,13 @@ NOTES = ("Run ./check <ID> quick|thorough from /verif.  Exit 0/1/2 = held / VIOL
          "known_findings.json lists repaired defects (status fixed, regression inputs) and open findings.")
 NOT_APPLICABLE = {}
 CHECKS = {
+    "C01": dict(
+        level="exploration",
+        technique="model-based op sequences (every public setter/observer order) + round trip against an independent git-grammar serialiser that is validated by C git (hash-object, fsck --strict, mktree, fast-import, commit-tree, mktag) in every run",
+        text="Over generated blobs, trees, commits and tags of git's canonical grammar (both hash formats, Rust and Python tree back ends), after every build order, parse entry point and sequence of public setters/observers, the id is the SHA-1/SHA-256 of type, length and content, the bytes are exactly those of the reference serialisation of the logical record (every other byte reproduced after a one-field edit), and the parsed fields equal the built ones. The same records are judged by git hash-object, fsck --strict, mktree (git does the sorting) and written independently by fast-import, commit-tree and mktag, byte-identically.",
+        design_ref="DESIGN.md §4 C01",
+        note="trusted base: hashlib; vf/model/c01_ref.py (self-tested and bulk-validated against git 2.39.5 each run; a disagreement is a harness error); canonical grammar = what git's writers emit; accepted-not-emitted inputs are checked for naming only; no gpg (signature blocks judged by the model + fsck)",
+    ),
     "C09": dict(
         level="fault_enumeration",
         engine="vf+interpose",
